@@ -121,6 +121,8 @@ def from_json(j):
         return tuple(from_json(x) for x in v)
     if k == 'd':
         return {from_json(a): from_json(b) for a, b in v}
+    if k == 'fn':
+        raise ValueError('function leaf')
     if k == 'a':
         return (APP, v[0], tuple(from_json(x) for x in v[1]), tuple((a, from_json(b)) for a, b in v[2]))
     raise ValueError(j)
@@ -167,6 +169,7 @@ class SymLog:
             return sympool.render(name, a, tuple(k.items()))
 
         f.__name__ = f.__qualname__ = name
+        f._symbolic = True
         return f
 
     def take(self):
@@ -184,3 +187,32 @@ def check_import():
 def dump(obj, path):
     with open(path, 'w') as f:
         json.dump(obj, f, separators=(',', ':'))
+
+
+def hash_json(value, fname):
+    """NodeHash.value (nested tuples tagged 0..3) -> JSON hash term; functions by name"""
+    tag = value[0]
+    if tag == 0:
+        data = value[1]
+        if type(data) is object:
+            return {'P': 1}
+        if callable(data) and not isinstance(data, (str, tuple)):
+            return {'L': {'fn': fname(data)}}
+        return {'L': to_json(data)}
+    if tag == 1:
+        return {'A': [fname(value[1]), [hash_json(x, fname) for x in value[2]], list(value[3])]}
+    if tag == 2:
+        return {'G': hash_json(value[1], fname)}
+    if tag == 3:
+        return {'C': [value[1], [hash_json(x, fname) for x in value[2:]]]}
+    raise ValueError(value)
+
+
+def fname(f):
+    """the symbol a function is known by in the model"""
+    mod = getattr(f, '__module__', None)
+    if mod == 'builtins':
+        return 'builtins.' + f.__name__
+    if mod == 'sympool' or getattr(f, '_symbolic', False):
+        return f.__name__
+    return (mod or '?') + ':' + getattr(f, '__qualname__', repr(f))
